@@ -83,6 +83,11 @@ def shared_jobs(tier, s0, names=None):
             jobs.append((_scn(n, proto, seed=s0, scribble=True), {'d': 0}))
             for mode in ('thread', 'process'):
                 jobs.append((_scn(n, proto, seed=s0, scribble=True, mode=mode, workers=2), {'d': 0}))
+    # (B4) multi-objective weights that do not sum to one, with a zero weight, in both directions
+    for n in names:
+        for w in ([2.0, 0.5], [1.0, 0.0], [0.2, 0.3]):
+            for mm in ('min', 'max'):
+                jobs.append((_scn(n, 'mo2', mm, 2, seed=s0, weights=w), {'d': 0}))
     # (B3) degenerate but valid objectives: constant 0 (every agent has exactly the same cost) and a step function
     for n in names:
         for obj in ('zero', 'step'):
